@@ -339,12 +339,56 @@ static int mutate_ext(spif_obj_t x, int k, long how, long ext, char *t, const op
     }
 }
 
+/* third generation (plan argument 5, after seeded round 13): the argument is the object itself -- appended or prepended to itself, spliced
+   into itself, compared with and copied over by itself.  The pinned library gets these right (it re-reads the source after it resized the
+   destination, or goes through a scratch block); what can go wrong is a read of the block that was just given back, which is C06's own
+   business.  Returns 0 where the kind has no operation that takes a second object of its class. */
+static int mutate_alias(spif_obj_t x, int k, long how, long al)
+{
+    switch (k) {
+    case K_STR: {
+        spif_str_t s = SPIF_STR(x);
+        long L = s->len;
+        switch (al % 4) {
+        case 0: spif_str_append(s, s); break;
+        case 1: spif_str_prepend(s, s); break;
+        case 2: spif_str_splice(s, (spif_stridx_t)(L ? how % L : 0), (spif_stridx_t)((how / 7) % 3), s); break;
+        default: spif_str_splice(s, (spif_stridx_t)(-(1 + (L ? how % L : 0))), (spif_stridx_t)(-((how / 7) % 2)), s); break;
+        }
+        return 1;
+    }
+    case K_USTR: {
+        spif_ustr_t s = (spif_ustr_t)x;
+        long L = s->len;
+        switch (al % 3) {
+        case 0: spif_ustr_append(s, s); break;
+        case 1: spif_ustr_prepend(s, s); break;
+        default: spif_ustr_splice(s, (spif_ustridx_t)(L ? how % L : 0), (spif_ustridx_t)((how / 7) % 3), s); break;
+        }
+        return 1;
+    }
+    case K_MBUFF: {
+        spif_mbuff_t m = SPIF_MBUFF(x);
+        long L = m->len;
+        switch (al % 3) {
+        case 0: spif_mbuff_append(m, m); break;
+        case 1: spif_mbuff_prepend(m, m); break;
+        default: spif_mbuff_splice(m, (spif_memidx_t)(L ? how % L : 0), (spif_memidx_t)((how / 7) % 3), m); break;
+        }
+        return 1;
+    }
+    default:
+        return 0;
+    }
+}
+
 static void mutate(int slot, const op_t *o)
 {
     spif_obj_t x = obj[slot];
     int k = okind[slot];
     long how = o->a[1];
     char *t = cstr(o);
+    if (o->na > 4 && o->a[4] && mutate_alias(x, k, how, o->a[4])) { sim_free(t); probe_hit("object_is_its_own_argument"); return; }
     if (o->na > 3 && o->a[3] && mutate_ext(x, k, how, o->a[3], t, o)) { sim_free(t); probe_hit("extended_mutator_2"); return; }
     switch (k) {
     case K_STR: {
@@ -857,6 +901,7 @@ static void gen_common(plan_t *p, rng_t *r, int c05)
             const char *t = texts[rng_below(r, sizeof(texts) / sizeof(texts[0]))];
             if (rng_chance(r, 1, 4)) o = plan_op(p, 0, "mut", 3, (long)s, (long)rng_below(r, 1000), (long)rng_range(r, 1, kinds[s] == K_URL ? 9 : kinds[s] == K_TOK ? 6 : IS_MAP(kinds[s]) ? 11 : 8));
             else if (rng_chance(r, 1, 4)) o = plan_op(p, 0, "mut", 4, (long)s, (long)rng_below(r, 1000), 0L, (long)rng_range(r, 1, 8));
+            else if ((kinds[s] == K_STR || kinds[s] == K_USTR || kinds[s] == K_MBUFF) && rng_chance(r, 1, 4)) o = plan_op(p, 0, "mut", 5, (long)s, (long)rng_below(r, 1000), 0L, 0L, (long)rng_range(r, 1, 12));
             else o = plan_op(p, 0, "mut", 2, (long)s, (long)rng_below(r, 1000));
             if (kinds[s] == K_MBUFF && rng_chance(r, 1, 3)) { static const char bin[] = "a\0b\xff\x80\0\0z"; op_str(o, bin, 1 + rng_below(r, 8)); }       /* bytes a C string cannot hold */
             else op_str(o, t, strlen(t));
